@@ -135,6 +135,12 @@ def text_stage(ctx):
         ctx.stage("text-" + fmt, kind="G+R+V", files=n, records=stats["records"], rejected=rej)
         if stats.get("valid", 0) != stats["records"]:
             raise Infra("text stage %s: %d of %d records are valid files" % (fmt, stats.get("valid", 0), stats["records"]))
+        # every valid file once more through a reader that hands out a few bytes per Read call
+        rpath, stats = codec.run_faults(ctx, fmt, cpath, n, "valid-%s-dribble" % fmt, env_extra={"VERIF_READER": "dribble"})
+        rej = codec.judge(ctx, "valid-%s-dribble" % fmt, rpath, stats["records"], {"valid"},
+                          lambda rec, clause: codec.fault_key(rec, clause) + ":short-reads")
+        total += stats["records"]
+        ctx.stage("text-%s-short-reads" % fmt, kind="G+R+V", files=n, records=stats["records"], rejected=rej)
         if fmt == "stla":
             # the single-precision text format once more with coordinates written as long decimals just above / below
             # the midpoint of two neighbouring float32 values: read as the float32 on the right side of the midpoint
